@@ -23,6 +23,8 @@ type C16Case struct {
 	Doc    []byte     `json:"doc,omitempty"`  // parser
 	Cuts   []int      `json:"cuts,omitempty"` // parser: chunking for ParseReader / decoder
 	Entry  string     `json:"entry,omitempty"`
+	// EOFData (reader entry points): the reader returns its last bytes together with io.EOF
+	EOFData bool `json:"eof_with_data,omitempty"`
 	Go     *GoCase    `json:"go,omitempty"`
 }
 
@@ -118,12 +120,12 @@ func checkC16(ci any, info *CaseInfo) string {
 			switch c.Entry {
 			case "parsereader":
 				return guard(func() error {
-					_, err := cd.ParseReader(&chunkReader{chunks: cloneChunks(gen.Split(c.Doc, c.Cuts))}, rec)
+					_, err := cd.ParseReader(&chunkReader{chunks: cloneChunks(gen.Split(c.Doc, c.Cuts)), eofWithData: c.EOFData}, rec)
 					return err
 				})
 			case "decoder":
 				return guard(func() error {
-					dec := cd.NewDecoder(&chunkReader{chunks: cloneChunks(gen.Split(c.Doc, c.Cuts))}, 16, rec)
+					dec := cd.NewDecoder(&chunkReader{chunks: cloneChunks(gen.Split(c.Doc, c.Cuts)), eofWithData: c.EOFData}, 16, rec)
 					for i := 0; i < len(c.Doc)+3; i++ {
 						if err := dec.Next(); err != nil {
 							return err
@@ -240,6 +242,7 @@ func drawC16(t *rapid.T) any {
 		c.Doc = d.Bytes
 		if c.Entry != "parse" {
 			c.Cuts = gen.Cuts(t, len(c.Doc), d.Spans)
+			c.EOFData = rapid.Bool().Draw(t, "eofdata")
 		}
 		return c
 	case w < 9:
@@ -308,6 +311,23 @@ func enumC16(emit func(c any) bool) {
 			}
 		}
 	}
+	// parsers: fixed documents x every entry point x {whole, one cut} x {data before EOF, data with EOF}
+	for _, f := range formatNames {
+		for _, d := range c18EnumDocs[f][0] {
+			for _, entry := range []string{"parse", "parsereader", "decoder"} {
+				for _, eof := range []bool{false, true} {
+					for _, cuts := range [][]int{nil, {len(d) / 2}} {
+						if entry == "parse" && (eof || cuts != nil) || cuts != nil && cuts[0] == 0 {
+							continue
+						}
+						if !emit(&C16Case{Target: "parser", Format: f, Doc: []byte(d), Entry: entry, Cuts: cuts, EOFData: eof}) {
+							return
+						}
+					}
+				}
+			}
+		}
+	}
 	// every scalar kind through every encoder
 	for _, k := range plainKinds {
 		var e model.Ev
@@ -334,7 +354,7 @@ var plainKinds = []string{model.KNil, model.KBool, model.KStr, model.KStrRef, mo
 func init() {
 	register(&Property{
 		ID:    "C16",
-		Rule:  "per generated case EVERY fault position is tried (runs of more than 512 steps: the first 256, the last 64 and an even stride of 192 through the middle): encoders (json, cborl, ubjson) with an io.Writer failing from the k-th Write on, for every k < number of writes of the dry run; parsers ({Parse, ParseReader over chunks, pull decoder}), Fold over generated Go values and the extended-event adapters with a visitor returning a sentinel at event k, for every k < number of events; oracle = some call returns a non-nil error (encoders) / the outermost call returns an error that is the sentinel (errors.Is) and no event follows the failing one; deterministic part: chains of empty announced containers ending the stream, every extended event (empty and non-empty) and every scalar kind through every encoder and the adapters; non-trivial = more than one fault position in the case; distinct by case hash; the class counter fault_positions counts the injected faults",
+		Rule:  "per generated case EVERY fault position is tried (runs of more than 512 steps: the first 256, the last 64 and an even stride of 192 through the middle): encoders (json, cborl, ubjson) with an io.Writer failing from the k-th Write on, for every k < number of writes of the dry run; parsers ({Parse, ParseReader over chunks, pull decoder}; readers return their last bytes before or together with io.EOF), Fold over generated Go values and the extended-event adapters with a visitor returning a sentinel at event k, for every k < number of events; oracle = some call returns a non-nil error (encoders) / the outermost call returns an error that is the sentinel (errors.Is) and no event follows the failing one; deterministic part: fixed documents x every parser entry point x {whole, one cut} x {data before EOF, data with EOF}, chains of empty announced containers ending the stream, every extended event (empty and non-empty) and every scalar kind through every encoder and the adapters; non-trivial = more than one fault position in the case; distinct by case hash; the class counter fault_positions counts the injected faults",
 		New:   func() any { return &C16Case{} },
 		Draw:  drawC16,
 		Check: checkC16,
